@@ -48,6 +48,15 @@ def answer_pairs(text, cmd):
     return shell.lt_answer([shell.lt_match(text, a, n, message='flag %s-%s' % (w1, w2), rule='R_' + w1) for a, n, w1, w2 in pair_spans(text)])
 
 
+def tail_spans(text):
+    return [(m.start(), 6, m.group(1)) for m in re.finditer(r'(W[a-z][a-z]q) \u00e4', text)]
+
+
+def answer_tail(text, cmd):
+    # the flagged text ends with a non-ASCII character (byte columns of xml-b)
+    return shell.lt_answer([shell.lt_match(text, a, n, message='flag ' + w + '+', rule='R_' + w) for a, n, w in tail_spans(text)])
+
+
 def source_for(case):
     """-> (tex, {word: source offset}, argv without file, filter options, multi-language?, threshold)"""
     if case[0] == 'doc':
@@ -139,11 +148,23 @@ class C14:
                 if pflag is None:
                     break
             runs = [('pairs', answer_pairs)] if pflag else []
+            tflag = []
+            for l, t in parts:
+                for a, n, w in tail_spans(t):
+                    if w in words and tex[words[w]:words[w] + 6] == w + ' \u00e4':
+                        tflag.append((words[w], 6, w + '+'))
+                    else:
+                        tflag = None
+                        break
+                if tflag is None:
+                    break
+            if tflag:
+                runs.append(('tail', answer_tail))
         viol = []
         tag = 'ml' if ml else 'doc'
         outs = []
         for rname, ans in runs:
-            exp = sorted(pflag) if rname == 'pairs' else sorted(flagged) if not one else [flagged[int(rname[3:])]]
+            exp = sorted(pflag) if rname == 'pairs' else sorted(tflag) if rname == 'tail' else sorted(flagged) if not one else [flagged[int(rname[3:])]]
             if one:
                 ans.seen = 0
             try:
@@ -199,7 +220,7 @@ class C14:
                 return ('text report names line and column of each flagged word, ordered by position', 'location',
                         {'got': [(g['line'], g['column'], g.get('message')) for g in got], 'expected': [(x['line'], x['col'], x['word']) for x in want]})
             for g, x in zip(got, want):
-                if '-' not in x['word'] and g.get('marked') != x['word']:
+                if '-' not in x['word'] and '+' not in x['word'] and g.get('marked') != x['word']:
                     return ('the excerpt shown with a message marks the flagged word', 'excerpt', {'entry': g, 'word': x['word']})
         elif mode == 'json':
             got = reports.parse_json(out)
